@@ -7,8 +7,8 @@
 // @opts max_steps=60000000 budget_s=600
 // @reach advection.read
 // @funcs Phreeqc::read_advection
-// @bounds an ADVECTION block read by the real input reader into a really constructed engine with -cells N and -shifts M, N and M over {-5, -1, 0, 1, 3} (case split), with and without a -punch_cells list
-// @oracle any input text makes the call return normally: the reader returns without an exception leaving it; a negative number of cells or shifts is reported as an input error; otherwise the per-cell print and punch switches have one entry per cell (plus the inflow solution)
+// @bounds an ADVECTION block read by the real input reader into a really constructed engine with -cells N and -shifts M, N and M over {-5, -1, 0, 1, 3} (case split), with and without a -punch_cells list, and one of -punch_frequency / -selected_output_frequency / -print_frequency with a value in {-2, 0, 1, 7}
+// @oracle any input text makes the call return normally: the reader returns without an exception leaving it; a negative number of cells or shifts is reported as an input error; the print and punch frequencies, which the calculation uses as divisors, are positive after the block (a non-positive value is replaced with a warning) and a positive value is kept as written; otherwise the per-cell print and punch switches have one entry per cell (plus the inflow solution)
 // @stubs PHRQ_io::error_msg / warning_msg / output_msg / echo_msg (events)
 // @outside the advection calculation itself
 #include "Phreeqc.h"
@@ -33,6 +33,10 @@ extern "C" void vfh_C08_advection_cells(void)
 	std::ostringstream os;
 	os << " -cells " << n << "\n -shifts " << m << "\n";
 	if (list) os << " -punch_cells 1\n";
+	static const int F[4] = {-2, 0, 1, 7};
+	static const char *FOPT[3] = {" -punch_frequency ", " -selected_output_frequency ", " -print_frequency "};
+	int fk = (int) vf_int("frequency_case", 0, 3), fo = (int) vf_int("frequency_option", 0, 2);
+	os << FOPT[fo] << F[fk] << "\n";
 	os << "END\n";
 	std::string text = os.str();
 	std::istringstream is(text);
@@ -44,6 +48,9 @@ extern "C" void vfh_C08_advection_cells(void)
 	vf_check("advection.reader_returns_normally", !threw);
 	if (threw) return;
 	vf_check("advection.block_read", rv == KEYWORD || rv == EOF);
+	/* the frequencies are divisors (advection_step % frequency) */
+	vf_check("advection.frequencies_usable_as_divisors", p->punch_ad_modulus > 0 && p->print_ad_modulus > 0);
+	if (F[fk] > 0) vf_check("advection.frequency_as_written", (fo == 2 ? p->print_ad_modulus : p->punch_ad_modulus) == F[fk]);
 	if (n < 0 || m < 0) vf_check("advection.negative_count_reported", g_err > 0 && p->input_error > 0);
 	else vf_check("advection.one_switch_per_cell", (int) p->advection_punch.size() == n + 1 && (int) p->advection_print.size() == n + 1);
 }
